@@ -112,6 +112,8 @@ enum Node {
     Opt(Box<OptNode>),
     And(Box<Tee<Node, Node>>),
     OrElse(Box<OrElse<OptNode, Node>>),
+    /// the type-erased factory (`BoxMakeWriter::new(node)`): same denotation as `node`
+    Boxed(tracing_subscriber::fmt::writer::BoxMakeWriter),
 }
 impl<'a> MakeWriter<'a> for OptNode {
     type Writer = OptionalWriter<Box<dyn io::Write + 'a>>;
@@ -138,6 +140,7 @@ impl<'a> MakeWriter<'a> for Node {
             Node::Opt(o) => Box::new(o.make_writer()),
             Node::And(t) => Box::new(t.make_writer()),
             Node::OrElse(o) => Box::new(o.make_writer()),
+            Node::Boxed(b) => Box::new(b.make_writer()),
         }
     }
     fn make_writer_for(&'a self, meta: &Metadata<'_>) -> Self::Writer {
@@ -146,6 +149,7 @@ impl<'a> MakeWriter<'a> for Node {
             Node::Opt(o) => Box::new(o.make_writer_for(meta)),
             Node::And(t) => Box::new(t.make_writer_for(meta)),
             Node::OrElse(o) => Box::new(o.make_writer_for(meta)),
+            Node::Boxed(b) => Box::new(b.make_writer_for(meta)),
         }
     }
 }
@@ -336,7 +340,8 @@ fn judge_cell(
 fn route_end_to_end(e: &Expr, cfgs: &[Cfg], n: u64, sig: u64, acc: &mut RouteAcc, out: &mut Out) -> bool {
     let sinks: Vec<RecSink> = (0..NSINKS).map(RecSink::new).collect();
     let cfg = cfgs[(n % cfgs.len() as u64) as usize];
-    let node = build_node(e, &sinks);
+    // every other expression is handed over behind the type-erasing BoxMakeWriter
+    let node = if n % 2 == 1 { Node::Boxed(tracing_subscriber::fmt::writer::BoxMakeWriter::new(build_node(e, &sinks))) } else { build_node(e, &sinks) };
     let d = build_dispatch(&cfg, node);
     let _g = tracing::dispatch::set_default(&d);
     set_opctx(0, 0);
@@ -387,7 +392,7 @@ fn route_end_to_end(e: &Expr, cfgs: &[Cfg], n: u64, sig: u64, acc: &mut RouteAcc
 /// Route by calling the expression's `make_writer_for` + `write_all` directly (what
 /// `on_event` does with a finished record); used for the complete depth-3 table.
 fn route_direct(e: &Expr, sinks: &[RecSink], metas: &[[&'static Metadata<'static>; 3]; 5], sig: u64, acc: &mut RouteAcc, out: &mut Out) -> bool {
-    let node = build_node(e, sinks);
+    let node = if sig % 2 == 1 { Node::Boxed(tracing_subscriber::fmt::writer::BoxMakeWriter::new(build_node(e, sinks))) } else { build_node(e, sinks) };
     for lvl in 1..=5usize {
         for tgt in 0..RTARGETS.len() {
             let rec = b"direct #E0x0# record\n";
